@@ -20,6 +20,13 @@ CONSTANT GuardReserved   \* TRUE: reserved bytes of the *looked-up path* never
                          \* parameter (the repaired code);  FALSE: as-built before
                          \* the fix (finding D1) - kept to show TLC finds D1.
 
+CONSTANT GuardNul        \* TRUE: a NUL byte of the looked-up path never follows an edge (the repaired code);
+                         \* FALSE: as-built before the fix (finding D55): CHECK 0 marks the unused slots of the
+                         \* double-array, so a NUL byte passes the CHECK comparison of an unused slot and the walk goes
+                         \* on from there.  The model has no slot layout: the phantom step is abstracted as "the walk
+                         \* stays on its node" (what the failing lookup '/=a/ab/\x00ab' -> /:y/ab/ab did) - enough for
+                         \* TLC to show the unsound match, not a prediction of which slot the real walk lands in.
+
 SLASH == 47
 COLON == 58
 STAR  == 42
@@ -150,7 +157,8 @@ HasEdge(records, n, c) == NodeExists(records, Append(n, c))
 LeafOf(records, n) == CHOOSE i \in ParamRecs(records) : Syms(records[i].pat) = n
 
 (* the byte walk may follow edge c                                          *)
-WalkEdge(records, n, c) == HasEdge(records, n, c) /\ (GuardReserved => c \notin Reserved)
+WalkEdge(records, n, c) == HasEdge(records, n, c) /\ (GuardReserved => c \notin Reserved) /\ c # 0
+PhantomNul(records, n, c) == ~GuardNul /\ c = 0
 
 RECURSIVE NextSep(_, _)
 NextSep(path, i) ==   \* 1-based index of the next separator at or after i, or Len+1
@@ -165,6 +173,8 @@ LitWalk(records, n, path, i, stack) ==
                   THEN Append(stack, [i |-> i, node |-> n]) ELSE stack
        IN IF WalkEdge(records, n, path[i])
           THEN LitWalk(records, Append(n, path[i]), path, i + 1, st2)
+          ELSE IF PhantomNul(records, n, path[i])
+          THEN LitWalk(records, n, path, i + 1, st2)
           ELSE [node |-> n, stack |-> st2, done |-> FALSE]
 
 NotFoundRes == [found |-> FALSE, rec |-> 0, texts |-> <<>>]
